@@ -571,6 +571,22 @@ def mc_calls(tier, seed):
     return res
 
 
+def mc_memo(tier, seed):
+    """'a function of its arguments' against a memo of the last call: none (the code) and a copying memo hold; a key
+    that aliases the caller's buffer and a result handed out by reference are counterexamples"""
+    base = 'SPECIFICATION Spec\nCONSTANTS Vals = {1, 2, 3} MemoImpl = "%s"\nINVARIANTS FunctionOfArguments\nCHECK_DEADLOCK FALSE\n'
+    res = []
+    for impl in ("none", "copy"):
+        r = vlib.run_mc("MC_Memo", base % impl, workers=2, timeout=300)
+        r["module"] = "MC_Memo[%s]" % impl
+        res.append(r)
+    for impl in ("aliaskey", "aliasres"):
+        r = vlib.run_mc("MC_Memo", base % impl, workers=2, timeout=300, expect_violation="is violated")
+        r["module"] = "MC_Memo[%s control]" % impl
+        res.append(r)
+    return res
+
+
 def mc_reader(tier, seed):
     res = []
     for w in (12, 15, 18, 21, 24):
@@ -1041,7 +1057,7 @@ def record_c13(binary, tier, seed):
                                   "exhaustive_edge_cover": True}
 
 
-RECIPES["C13"] = dict(mc=[mc_history, mc_drive_history], record=record_c13, replay=cold_replay("C13"), prefix_ok=True, props=["C13", "DRIFT"],
+RECIPES["C13"] = dict(mc=[mc_history, mc_drive_history, mc_memo], record=record_c13, replay=cold_replay("C13"), prefix_ok=True, props=["C13", "DRIFT"],
                       speaks=lambda e: e.get("op") in ("ByEntropy", "Check", "ToSeed", "String", "NewMnemonic", "Buf", "Recheck"),
                       rule="call histories generated from Drive_History's state graph (every edge covered; every ordered pair of first-used languages; long random walks), each in a fresh "
                            "process; every return is validated natively and against the first result recorded for the same arguments in the same process; caller buffers and "
